@@ -95,7 +95,7 @@ def run(case) -> dict:
     viol = None
 
     def V(fl, cond, detail):
-        return common.violation("C20", cond, fl, "after-resolver-fault" if fails else "", "", "",
+        return common.violation("C20", cond, fl, "after-resolver-fault" if fails else ("after-earlier-lookup" if earlier else ""), "", "",
                                 f"{detail}; records(priority,weight,spelling[,host])={records} domain={domain!r} failing queries before={fails}")
 
     want_q = f"_ldap._tcp.dc._msdcs.{domain}" if domain else "_ldap._tcp.dc._msdcs"
